@@ -144,6 +144,35 @@ def run(ctx: Ctx) -> None:
         ctx.obligation("correspondence:temperature-arrays", False, "correspondence", "model not built")
         ctx.obligation("correspondence:element-lengths", False, "correspondence", "model not built")
 
+    # (a') the two decoders the range theorems are about, over their WHOLE domains (both percent resolutions, all 65 536 temperature words)
+    import ramses_tx.helpers as H  # noqa: PLC0415
+
+    from . import c04  # noqa: PLC0415
+
+    codes = c04.impl_codes(H)
+    suites = {"pct_hi": ("blocks (pct_code true) 1 256", c04.block_hashes(lambda b: codes["pct"](True, b), 1, 256)),
+              "pct_lo": ("blocks (pct_code false) 1 256", c04.block_hashes(lambda b: codes["pct"](False, b), 1, 256)),
+              "temp_words": ("blocks temp_code 256 256", c04.block_hashes(codes["temp"], 256, 256))}
+    if built:
+        res = common.coq_eval("C05c", {n: c04.PRELUDE + f"Eval vm_compute in ({e})." for n, (e, _) in suites.items()}, timeout=600)
+        for n, (e, impl) in suites.items():
+            rc, out = res[n]
+            model = c04.parse_zlist(out) if rc == 0 else []
+            bad = [i for i, (a, b) in enumerate(zip(model, impl)) if a != b]
+            detail = ""
+            if rc or bad or len(model) != len(impl):
+                detail = f"rc={rc}; {len(bad)} of {len(impl)} blocks of 256 inputs differ (first block {bad[:1]})"
+                if n.startswith("pct"):
+                    hr = n == "pct_hi"
+                    outs = {f"{b:02X}": c04.call(H.hex_to_percent, f"{b:02X}", hr) for b in range(256)}
+                    wrong = {k: str(v[1]) for k, v in outs.items() if v[0] == "ok" and v[1] is not None and not 0.0 <= v[1] <= 1.0}
+                    detail += f"; hex_to_percent(high_res={hr}) outside 0..1 for bytes {sorted(wrong)[:4]}..{sorted(wrong)[-1:]} ({len(wrong)} bytes)" if wrong else ""
+            ctx.obligation(f"correspondence:decoder:{n}", not detail, "correspondence", detail)
+            ctx.evaluations += len(impl) * 256
+    else:
+        for n in suites:
+            ctx.obligation(f"correspondence:decoder:{n}", False, "correspondence", "model not built")
+
     # (b) every code: JSON-able, deterministic, index-consistent, ranges
     devs = ["01:145038", "13:123456", "10:123456", "07:123456", "22:123456", "04:123456", "02:123456", "30:123456", "32:123456", "18:111111", "23:123456"]
     lines = []
@@ -217,6 +246,58 @@ def run(ctx: Ctx) -> None:
                 ctx.violation(f"ratio-out-of-range:{code}:{key}", f"{ln}: {key} = {v}", {"line": ln, "payload": js[:400]}, "input")
             if TEMP_KEYS.search(key) and not key.startswith("_") and isinstance(v, float) and not -273.15 <= v <= 327.67:
                 ctx.violation(f"temperature-out-of-range:{code}:{key}", f"{ln}: {key} = {v}", {"line": ln, "payload": js[:400]}, "input")
+    # ---- byte sweep around real-world packets: every byte of a decodable packet that carries a ratio or a temperature takes
+    #      boundary values (all 256 in the thorough tier), so each numeric field is driven over its whole wire range
+    import glob  # noqa: PLC0415
+    import os  # noqa: PLC0415
+
+    import ramses_tx  # noqa: PLC0415
+
+    seeds = {}
+    logs = sorted(glob.glob(os.path.join(os.path.dirname(os.path.dirname(os.path.dirname(ramses_tx.__file__))), "tests", "tests", "parsers", "*.log")))
+    cand = []
+    for path in logs:
+        with open(path, encoding="utf-8") as fh:
+            for raw in fh:
+                m = re.match(r"^\d{4}-\d\d-\d\dT[\d:.]+ (\.\.\.|\d{3}) (.{2} (?:---|\d{3}) \S+ \S+ \S+ [0-9A-F]{4} \d{3} [0-9A-F]+)", raw)
+                if m:
+                    cand.append("045 " + m.group(2))
+    cand += [ln for ln in decodable]
+    for ln in cand:
+        f = ln.split()
+        key = (f[-3], ln[4:6], len(f[-1]))
+        if len(seeds.get(key, [])) >= 1:
+            continue
+        try:
+            p = decode(ln)
+        except Exception:  # noqa: BLE001, S112
+            continue
+        if any((RATIO_KEYS.search(k) or TEMP_KEYS.search(k)) for path, v in walk(p) for k in path if not k.isdigit()):
+            seeds.setdefault(key, []).append(ln)
+    vals = list(range(256)) if thorough else [0x00, 0x01, 0x32, 0x63, 0x64, 0x65, 0x7E, 0x7F, 0x80, 0xC7, 0xC8, 0xC9, 0xEE, 0xEF, 0xF0, 0xFE, 0xFF, rng.randrange(256)]
+    n_sweep = 0
+    for key, lns in sorted(seeds.items()):
+        for ln in lns:
+            head, pl = ln.rsplit(" ", 1)
+            for i in range(0, len(pl), 2):
+                for b in vals:
+                    alt = f"{head} {pl[:i]}{b:02X}{pl[i + 2:]}"
+                    try:
+                        p = decode(alt)
+                    except Exception:  # noqa: BLE001, S112
+                        continue
+                    n_sweep += 1
+                    for path, v in walk(p):
+                        if isinstance(v, bool) or not isinstance(v, int | float) or not path:
+                            continue
+                        k = next((x for x in reversed(path) if not x.isdigit()), "")
+                        if RATIO_KEYS.search(k) and not 0.0 <= v <= 1.0 and "fault" not in k:
+                            ctx.violation(f"ratio-out-of-range:{key[0]}:{k}", f"{alt}: {k} = {v}", {"line": alt, "payload": str(p)[:400], "swept_from": ln}, "input")
+                        if TEMP_KEYS.search(k) and not k.startswith("_") and isinstance(v, float) and not -273.15 <= v <= 327.67:
+                            ctx.violation(f"temperature-out-of-range:{key[0]}:{k}", f"{alt}: {k} = {v}", {"line": alt, "payload": str(p)[:400], "swept_from": ln}, "input")
+            ctx.case(("sweep", ln), True, "decode:byte-sweep-seed")
+    ctx.evaluations += n_sweep
+    ctx.extra["byte_sweep"] = {"seed_packets": sum(len(v) for v in seeds.values()), "values_per_byte": len(vals), "packets_decoded": n_sweep}
     # shared mutable state: the same payload from another device, decoded before and after a packet that carries a sequence number
     seen = set()
     for ln in decodable:
